@@ -1,7 +1,12 @@
 ----------------------------- MODULE NumLexMC -----------------------------
 (* Model-checking wrapper of NumLex: every complete literal leaves TLC as
-   [cs = character codes, v = value, k = "int" | "chr", b = base, s = suffix]. *)
+   [cs = character codes, v = value, k = "int" | "chr", b = base, s = suffix, p = encoding prefix]. *)
 EXTENDS NumLex, Json, CSV, IOUtils
+
+\* alphabets (defined here: a cfg file does not read "\\" as one backslash)
+CharsQuick == {"0", "1", "3", "7", "9", "a", "F", "x", "b", "'", "\\", "u", "U", "8", "l", "L", "n"}
+CharsThorough == {"0", "1", "2", "3", "7", "8", "9", "a", "f", "A", "F", "x", "X", "b", "B", "'", "\\", "u", "U", "l", "L",
+                  "n", "t", "?", " "}
 
 DumpFile == IF "VERIF_DUMP" \in DOMAIN IOEnv THEN IOEnv.VERIF_DUMP ELSE ""
 
@@ -9,6 +14,6 @@ DumpConstraint ==
   IF DumpFile # "" /\ Accepting
     THEN CSVWrite("%1$s", <<ToJson([cs |-> [i \in 1..Len(text) |-> Code[text[i]]], v |-> val,
                                      k |-> IF mode = "cdone" THEN "chr" ELSE "int",
-                                     b |-> base, s |-> suf])>>, DumpFile)
+                                     b |-> base, s |-> suf, p |-> pfx])>>, DumpFile)
     ELSE TRUE
 =============================================================================
